@@ -255,3 +255,22 @@ func asMap(v any) map[string]any {
 	m, _ := v.(map[string]any)
 	return m
 }
+
+// ---------------------------------------------------------------------------------------
+// Known findings: deterministic probes.
+
+// TestC16KFNamespaceArrayForm re-executes the minimal reproduction of the known finding
+// namespace-array-form: cbor.Unmarshal accepts a common.Namespace given as a CBOR array of
+// integers (82 00 01), bypassing Namespace.UnmarshalBinary (length and reserved-flag checks). The
+// accepted value 0001000...00 has reserved flag bits set; its canonical re-encoding (a 32-byte
+// string) is rejected with "malformed namespace" by every decoder. A registry.Runtime descriptor
+// with such an id passes registry.VerifyRuntime and can then not be decoded from its stored form.
+func TestC16KFNamespaceArrayForm(t *testing.T) {
+	rec := ev.New("C16", "TestC16KFNamespaceArrayForm", "deterministic probe of known finding "+SigNamespaceArrayForm+": decode the 3-byte input 82 00 01 into common.Namespace and a runtime descriptor whose id is the 32-element array form of 0001..16; re-encode; decode again", "")
+	defer rec.Flush()
+	msgs := probeNamespaceArrayForm()
+	rec.Case(true, ev.Fingerprint("probe"), fmt.Sprint(msgs))
+	if len(msgs) > 0 {
+		ev.Violation(t, SigNamespaceArrayForm, "%s", strings.Join(msgs, "; "))
+	}
+}
